@@ -10,7 +10,8 @@ def run(chk):
                 'trash or whole at its destination), FrameOK, DoneOK in every reachable state including after up to two '
                 'crashes with re-runs, RerunCompletes under weak fairness. (2) the REAL commands are killed immediately '
                 'before operation k, for every k (and after the last), over a trash with a file, a deep directory tree '
-                'whose restore crosses volumes, a link and a file on another volume, plus two orphans; TLC (PurgeTrace) '
+                'whose restore crosses volumes, a link (dangling, and in the @dirlink scenarios to an existing directory outside the trash, '
+                'which must stay untouched) and a file on another volume, plus two orphans; TLC (PurgeTrace) '
                 'evaluates InfoLast / RestoreNeverLoses / Frame on every post-kill on-disk state; then the command is run '
                 'again (for a killed trash-restore: trash-empty) and the final state must be the completed purge, with '
                 'restored destinations intact. (3) lock-step runs: the on-disk state after every single operation of the '
@@ -26,7 +27,8 @@ def run(chk):
     for scen in opdrivers.PURGE_SCENARIOS:
         n, ops, ex, fin = opdrivers.purge_baseline(scen)
         if ex != 0:
-            chk.machinery.append('baseline run of %s exits %s' % (scen, ex))
+            chk.violation('kill:%s:uninterrupted-exit-%s' % (scen, ex), 'the uninterrupted run of %s exits %s' % (scen, ex),
+                          {'kind': 'purge', 'scen': scen})
         out = tt.pmap(opdrivers.run_purge_crash, [(scen, k) for k in range(1, n + 2)])
         if sum(1 for o in out if o['killed']) < n:
             chk.machinery.append('%s: only %d of %d kill points reached' % (scen, sum(1 for o in out if o['killed']), n))
@@ -34,6 +36,10 @@ def run(chk):
             chk.traces += 2
             chk.count('kill', 1, key='%s|%d' % (scen, o['k']), nontrivial=True)
             items.append(o)
+            if not o['outside_intact']:
+                chk.violation('kill:%s:link-target-touched' % scen,
+                              'the directory a trashed symlink points to was modified by the purge (scenario %s, kill before %s)' % (scen, o['k']),
+                              {'kind': 'purge', 'item': o})
             if o['after_rerun'].get('dest_kept') is False:
                 chk.violation('kill:%s:recovery-purge-touched-destination' % scen,
                               'the purge after a killed trash-restore changed a restored destination', {'kind': 'purge', 'item': o})
@@ -69,7 +75,8 @@ def run(chk):
         uniq = []
         for t in ts:
             if t['exit'] != 0:
-                chk.machinery.append('lock-step run of %s exits %s' % (scen, t['exit']))
+                chk.violation('design:%s:exit-%s' % (scen, t['exit']), 'the uninterrupted %s exits %s' % (scen, t['exit']),
+                              {'kind': 'purge-trace', 'scen': scen})
             if t['states'] not in uniq:
                 uniq.append(t['states'])
         res, acc = opspec.validate_purge_traces(uniq, cmd, sel, ['e2', 'e4'])
